@@ -798,6 +798,36 @@ func coerceGen(dir string) func(r *rand.Rand, tier string) []Case {
 			if tier == "thorough" {
 				nsl = 6000
 			}
+			// typed slices whose first element is already in output form and a later one cannot be
+			// represented: every element goes through the coercion of the element type, not only the first
+			addx := func(t sx.S, vals ...sx.S) {
+				n++
+				in := sx.L("coerce", "outx", t, append([]sx.S{"vals"}, vals...))
+				cases = append(cases, Case{ID: fmt.Sprintf("x%d", n), Input: in,
+					Tags: []string{"nontrivial", "typed-slice-through-the-executor", "good-then-bad"}, Human: sx.String(t) + " <- " + sx.String(in)})
+			}
+			for i, f := range floatZoo {
+				if math.IsNaN(f) || math.IsInf(f, 0) {
+					continue
+				}
+				for j, g := range floatZoo {
+					if math.IsNaN(g) || math.IsInf(g, 0) {
+						addx(sx.L("sc", "Float64"), fltSexp(i, f, false), fltSexp(j, g, false), fltSexp(i, f, false))
+						if f32 := float32(f); !math.IsInf(float64(f32), 0) && i%3 == 0 {
+							addx(sx.L("sc", "Float"), fltSexp(1000+i, float64(f32), true), fltSexp(1000+j, float64(float32(g)), true))
+						}
+					}
+				}
+			}
+			for i := range stringZoo {
+				if _, err := time.Parse(time.RFC3339Nano, stringZoo[i]); err == nil {
+					for j := range stringZoo {
+						if j != i && j%4 == 0 {
+							addx(sx.L("sc", "Time"), strSexp(i), strSexp(j))
+						}
+					}
+				}
+			}
 			for i := 0; i < nsl; i++ {
 				var t sx.S = sx.L("sc", scalarNames[r.Intn(len(scalarNames))])
 				if i%8 == 7 {
